@@ -106,6 +106,18 @@ func newOracles(w *world) *oracles {
 // (or is a panic); violations of other properties are only counted, so that
 // each check reports its own property.
 func (w *world) violate(rule, msg string) {
+	if w.prop == "C14" {
+		// Runs made on behalf of C14 (no lock left behind, every call
+		// terminates) for the scheduler: only the kernel-level facts count.
+		if rule == "C06/call-never-returned" {
+			w.k.Violate("C14/call-never-returned", "[scheduler] "+msg)
+		} else if strings.HasPrefix(rule, "panic:") {
+			w.k.Violate(rule, msg)
+		} else {
+			w.r.Count("other_property_rule:"+rule, 1)
+		}
+		return
+	}
 	if strings.HasPrefix(rule, w.prop+"/") || strings.HasPrefix(rule, "panic:") {
 		w.k.Violate(rule, msg)
 		return
